@@ -5,10 +5,13 @@ import (
 	"fmt"
 	"math/big"
 	"sort"
+	"strings"
 	"time"
 
 	mintertypes "github.com/chain4energy/c4e-chain/x/cfeminter/types"
+	codectypes "github.com/cosmos/cosmos-sdk/codec/types"
 	sdk "github.com/cosmos/cosmos-sdk/types"
+	banktypes "github.com/cosmos/cosmos-sdk/x/bank/types"
 	abci "github.com/tendermint/tendermint/abci/types"
 
 	"verifsim/kernel"
@@ -24,6 +27,9 @@ import (
 
 type c02Extra struct {
 	Twins [][]int64 `json:"twins"` // per twin: block times as ns offsets from genesis, strictly increasing
+	// Rollback: per twin, the offsets of blocks in which governance executes [minter update with other amounts, a
+	// message that fails] - x/gov drops the whole proposal, the schedule must stay what it was (F-rollback)
+	Rollback [][]int64 `json:"rollback,omitempty"`
 }
 
 func init() {
@@ -40,7 +46,7 @@ func init() {
 		Real:       []string{"app.App BeginBlock/EndBlock/Commit", "x/cfeminter keeper+types", "x/cfedistributor", "x/bank", "IAVL stores on in-memory disk"},
 		Stub:       []string{"Tendermint consensus/p2p/mempool (block producer is the simulator)"},
 		Assumes:    []string{"fixed-point window eps=1e-18*(steps^2+periods+10) follows from 18-digit precision, not from the code", "exponential steps per run capped (<=2000 per period)", "horizon <= 150 years"},
-		FaultKinds: []string{"F-clock: jumps, minimal steps, exact boundary hits, multi-boundary jumps"},
+		FaultKinds: []string{"F-clock: jumps, minimal steps, exact boundary hits, multi-boundary jumps", "F-rollback (every fourth run: in two of the three twins governance executes [schedule with other amounts, failing message] in 1-3 blocks; the proposal is dropped as a whole)"},
 	})
 }
 
@@ -162,6 +168,16 @@ func c02RunSeed(seed uint64, tier string) *Outcome {
 		return out
 	}
 	extra := c02Extra{Twins: [][]int64{twinA, mk(r.Fork(4), false), mk(r.Fork(5), true)}}
+	if seed%4 == 1 {
+		rb := r.Fork(6)
+		extra.Rollback = make([][]int64, len(extra.Twins))
+		for ti := 1; ti < len(extra.Twins); ti++ {
+			offs := extra.Twins[ti]
+			for k := rb.Range(1, 3); k > 0 && len(offs) > 0; k-- {
+				extra.Rollback[ti] = append(extra.Rollback[ti], offs[rb.Intn(len(offs))])
+			}
+		}
+	}
 	tr := &kernel.Trace{Profile: "C02", Seed: seed, Spec: *spec, Extra: mustJSON(extra)}
 	o := c02Replay(tr)
 	o.Trace = tr
@@ -194,7 +210,7 @@ func (m *c02Monitor) Init(r *kernel.Run) {
 	m.sumEvents = sdk.ZeroInt()
 	m.lastSeq = r.Chain.App.CfeminterKeeper.GetMinterState(r.Chain.Ctx()).SequenceId
 	m.firstSeq = m.lastSeq
-	for _, mt := range r.Chain.App.CfeminterKeeper.GetParams(r.Chain.Ctx()).Minters {
+	for _, mt := range r.Chain.MinterParams().Minters {
 		if mt.SequenceId < m.firstSeq {
 			m.firstSeq = mt.SequenceId
 		}
@@ -336,7 +352,7 @@ func c02Replay(tr *kernel.Trace) *Outcome {
 			}
 			return o
 		}
-		params := run.Chain.App.CfeminterKeeper.GetParams(run.Chain.Ctx())
+		params := run.Chain.MinterParams()
 		model, err := MintModelFrom(params)
 		if err != nil {
 			o.InfraErr = err
@@ -350,11 +366,23 @@ func c02Replay(tr *kernel.Trace) *Outcome {
 		}
 		var blocks []kernel.Block
 		prev := int64(0)
+		rolled := map[int64]bool{}
+		if ti < len(extra.Rollback) {
+			for _, x := range extra.Rollback[ti] {
+				rolled[x] = true
+			}
+		}
 		for _, x := range offs {
 			if x <= prev {
 				continue
 			}
-			blocks = append(blocks, kernel.Block{DtNs: x - prev})
+			b := kernel.Block{DtNs: x - prev}
+			if rolled[x] {
+				if tx := c02RolledBackUpdate(params, spec.Clients[0]); tx != nil {
+					b.Txs = []kernel.Tx{*tx}
+				}
+			}
+			blocks = append(blocks, b)
 			prev = x
 		}
 		run.Drive(&listSource{blocks: blocks})
@@ -396,4 +424,29 @@ func lenAt(x [][]int64, i int) int {
 		return len(x[i])
 	}
 	return 0
+}
+
+// c02RolledBackUpdate: the stored schedule with every amount changed (same ids and times, so the handler accepts it),
+// followed by a bank send that cannot succeed; executed atomically the way x/gov executes a passed proposal.
+func c02RolledBackUpdate(params mintertypes.Params, signer string) *kernel.Tx {
+	p := cloneMinterParams(params)
+	for _, m := range p.Minters {
+		switch cfg := m.Config.GetCachedValue().(type) {
+		case *mintertypes.LinearMinting:
+			any, _ := codectypes.NewAnyWithValue(&mintertypes.LinearMinting{Amount: cfg.Amount.MulRaw(7).AddRaw(13)})
+			m.Config = any
+		case *mintertypes.ExponentialStepMinting:
+			any, _ := codectypes.NewAnyWithValue(&mintertypes.ExponentialStepMinting{Amount: cfg.Amount.MulRaw(3).AddRaw(1), AmountMultiplier: cfg.AmountMultiplier, StepDuration: cfg.StepDuration})
+			m.Config = any
+		}
+	}
+	upd := &mintertypes.MsgUpdateParams{Authority: gov(), MintDenom: p.MintDenom, StartTime: p.StartTime, Minters: p.Minters}
+	huge, _ := sdk.NewIntFromString("1" + strings.Repeat("0", 40))
+	failing := &banktypes.MsgSend{FromAddress: gov(), ToAddress: kernel.ActorBech(signer), Amount: sdk.NewCoins(sdk.NewCoin("nosuchcoin", huge))}
+	j1, err1 := kernel.MsgToJSON(upd)
+	j2, err2 := kernel.MsgToJSON(failing)
+	if err1 != nil || err2 != nil {
+		return nil
+	}
+	return &kernel.Tx{Signer: signer, Msgs: []jsonRaw{j1, j2}, Route: "atomic", Note: "rolled-back-gov-update"}
 }
